@@ -1800,3 +1800,67 @@ M("C08", "try-around-trace-loop", SEQ, _JM_OLD,
         for _ in ():
             LOGGER.warning(''', "R8.10",
   "one broken trace ends the sequencing of its workflow (seed C08-e)")
+
+# ===================================================== wave f (session 3)
+M("C10", "flush-before-link", SQL,
+  '''        self.node_models_to_save.append(node_model)
+        self.add_node_relations(otel_event)
+
+        if len(self.node_models_to_save) >= self.batch_size:
+            self.commit_batched_unique_data_to_database()
+''',
+  '''        self.node_models_to_save.append(node_model)
+
+        if len(self.node_models_to_save) >= self.batch_size:
+            self.commit_batched_unique_data_to_database()
+        self.add_node_relations(otel_event)
+''', "R10.5", "threshold flush between a span's node and its link (seed C10-f)")
+_LOOP_OLD = '''    for job_group in job_id_streams:
+        try:
+            yield convert_otel_event_stream_to_event_id_to_otelevent_map(
+                job_group
+            )
+        except OTelTreeDisconnectedError:
+            LOGGER.warning(
+                "Parent events are missing for the job so the job cannot be "
+                "sequenced when the tree is broken."
+            )'''
+_LOOP_STALE = '''    trace_map: dict[str, OTelEvent] = {}
+    for job_group in job_id_streams:
+        try:
+            trace_map = convert_otel_event_stream_to_event_id_to_otelevent_map(
+                job_group
+            )
+        except OTelTreeDisconnectedError:
+            LOGGER.warning(
+                "Parent events are missing for the job so the job cannot be "
+                "sequenced when the tree is broken."
+            )
+        if trace_map:
+            yield trace_map'''
+_LOOP_FRESH = '''    for job_group in job_id_streams:
+        try:
+            trace_map = convert_otel_event_stream_to_event_id_to_otelevent_map(
+                job_group
+            )
+        except OTelTreeDisconnectedError:
+            LOGGER.warning(
+                "Parent events are missing for the job so the job cannot be "
+                "sequenced when the tree is broken."
+            )
+            continue
+        yield trace_map'''
+M("C12", "stale-trace-reyielded", SEQ, _LOOP_OLD, _LOOP_STALE, "R12.2",
+  "the previous trace is delivered again after a broken one (seed C12-f)")
+M("C08", "stale-trace-reyielded", SEQ, _LOOP_OLD, _LOOP_STALE, "R8.10",
+  "the previous trace is delivered again after a broken one (seed C12-f)")
+T("C12", "twin-yield-after-try", SEQ, _LOOP_OLD, _LOOP_FRESH,
+  "yield moved out of the try, handler continues")
+M("C11", "window-scan-skipped-for-zero-buffer", SQL,
+  '''        """Remove jobs within the buffer."""
+        time_window = get_time_window(self.time_buffer, self)''',
+  '''        """Remove jobs within the buffer."""
+        if self.time_buffer == 0:
+            return
+        time_window = get_time_window(self.time_buffer, self)''', "R11.2",
+  "traces of earlier runs stay when this run has no buffer (seed C11-f)")
